@@ -236,4 +236,18 @@ PROPS = {
         "exhaustive": {"quick": True, "thorough": True},
         "assumptions": ["payload lines do not begin with '-' (no dash-escaping), as the property states"],
     },
+    "C07": {
+        "claimed": True,
+        "technique": "TLA+ P-layer on the line representation (Deb822WrapP: order, values, comment anchors, indentation, separation, re-read, idempotence); TLC enumerates documents x settings, every real application is recorded and judged by TLC (trace validation)",
+        "level_text": "spec/MCDeb822Wrap.tla enumerates ten document layouts (comments before/between/after fields and paragraphs, multi-line values with tab/space indents, empty first line, duplicate names, blank runs, missing final newline) x 216 settings (indentation 1/4/field-name length, immediate_empty_line, one-liner limit none/8/200, paragraph and field sorting, formatter none/identity/splitting); the harness applies the real Deb822/Paragraph/Entry rebuilders (and Control::wrap_and_sort to control files with relation fields, Uploaders, substitution variables; and random settings to repository documents), records before/after/second application, and TLC evaluates the eight-conjunct property relation of spec/Deb822WrapP.tla on every event.",
+        "level_note": "the rebuilders are not modelled as an I-layer: the specification judges observations (P-layer only); relation-valued fields are expected to equal Relations::wrap_and_sort of the value (whose canonical form is C13's subject); paragraph comparators depend only on names and values",
+        "stages": [{"kind": "tlc_replay", "name": "wrap_cases", "module": "MCDeb822Wrap.tla", "cfg": "MCDeb822Wrap.cfg", "stage": "wrap", "trace_out": True,
+                    "workers": {"quick": 4, "thorough": 8}, "timeout": {"quick": 300, "thorough": 1200},
+                    "henv": {"quick": {"VERIF_MAPS": 2}, "thorough": {"VERIF_MAPS": 3}}},
+                   {"kind": "trace", "name": "wrap_applications", "module": "Deb822WrapTrace.tla", "cfg": "Deb822WrapTrace.cfg", "stage": "wrap", "append_from": "wrap_cases",
+                    "n": {"quick": 30, "thorough": 1500}, "timeout": {"quick": 600, "thorough": 3000}}],
+        "rule": "every (document layout, settings) case x 2-3 concretisations, control files x 3 settings, repository documents with seeded random settings; one trace event per application; distinct = distinct (input text, settings)",
+        "exhaustive": {"quick": True, "thorough": True},
+        "assumptions": ["Spaces(0) is outside (assert! in the code); continuation lines starting with '#' are outside"],
+    },
 }
